@@ -52,6 +52,7 @@ def shards(tier):
     d = BOUNDS[tier]['depth']
     out = [{'first': None}]      # histories of length 1
     out.append({'long': True})
+    out.append({'faults': True})
     for i in range(N_MAIN, len(EVENTS)):
         out.append({'extreme': i})
     for i in range(N_MAIN):
@@ -66,6 +67,11 @@ def run_shard(shard, ctx, tier):
     mod = sys.modules[__name__]
     d = BOUNDS[tier]['depth']
     n = N_MAIN
+    if 'faults' in shard:
+        for i in range(0, N_MAIN, 2):
+            for j in range(1, N_MAIN, 2):
+                guarded_check(mod, {'faults': [i, j]}, ctx)
+        return
     if 'long' in shard:
         for n in (130, 260, 300):
             for var in range(len(LONG_VARIANTS)):
@@ -281,6 +287,8 @@ def check_case(case, ctx):
     from pero_ocr.decoding.confusion_networks import add_hypothese, normalize_cn, sorted_cn_paths, best_cn_path
     if case.get('boh'):
         return check_boh(ctx)
+    if 'faults' in case:
+        return check_faults(case, ctx)
     if 'long' in case:
         hist = long_history(case['long'], case['var'])
         ctx.tag('hypotheses-longer-than-255')
@@ -288,6 +296,34 @@ def check_case(case, ctx):
             check_history(dict(case, hist=[0] * cut), ctx, hist[:cut])
         return
     check_history(case, ctx, [EVENTS[i] for i in case['hist']])
+
+
+def check_faults(case, ctx):
+    """environment answers (mc/faults.py): every single failing array allocation while a hypothesis is added (the alignment with the pivot).  The call
+    may report the failure; a network it returns nevertheless holds the earlier hypothesis and the new one, with the weights of a proper addition"""
+    from pero_ocr.decoding.confusion_networks import add_hypothese
+    from mc import faults
+    (h1, s1), (h2, s2) = [EVENTS[i] for i in case['faults']]
+    ctx.state(('faults', tuple(case['faults'])))
+    inj = faults.Injector(faults.numpy_allocators(), faults.memory_error)
+    base = add_hypothese([], h1, s1)
+    want = add_hypothese(copy.deepcopy(base), h2, s2)
+    for kk, site, (what, val) in inj.explore(lambda: add_hypothese(copy.deepcopy(base), h2, s2)):
+        ctx.executed()
+        if kk is None:
+            if what != 'ok':
+                raise val
+            continue
+        ctx.tag('fault-points')
+        if what == 'raised':
+            ctx.tag('failure-reported')
+            continue
+        ctx.nontrivial(('fault', tuple(case['faults']), kk), 'network-returned-despite-a-failed-allocation')
+        if canon(val) != canon(want) and not (member(val, h2) and (member(val, h1) or h1 == '') and (not base or embedding_ok(base, val, s2, h2))):
+            ctx.violation('new-hypothesis-readable', f'{ID}/add/network-returned-after-a-failed-allocation',
+                          f'{h2!r} (score {s2}) added to the network of {h1!r}: with the allocation #{kk} ({site[2]} in {site[0]}:{site[1]}) raising MemoryError '
+                          f'add_hypothese returned {val}; a proper addition gives {want}')
+            return
 
 
 def check_history(case, ctx, hist):
@@ -394,5 +430,5 @@ def describe(tier):
                 'every history and on the final network. Non-trivial: an add that inserted >= 2 new positions at once.',
         'bounds': BOUNDS[tier], 'alphabets': {'strings': STRINGS, 'scores': SCORES},
         'assumptions': ['sorted_cn_paths is compared with the full product only when the product has <= 4000 paths (counter reports skips)'],
-        'min_nontrivial': 20, 'required_tags': ['normalised-position-with-a-vanishing-arc', 'hypotheses-with-spaces', 'hypotheses-longer-than-255', 'vanishing-score-hypothesis', 'insertion', 'several-insertions-in-one-add', 'bag-with-lm-scores', 'bag-with-and-without-lm-scores'],
+        'min_nontrivial': 20, 'required_tags': ['normalised-position-with-a-vanishing-arc', 'hypotheses-with-spaces', 'hypotheses-longer-than-255', 'vanishing-score-hypothesis', 'insertion', 'several-insertions-in-one-add', 'bag-with-lm-scores', 'bag-with-and-without-lm-scores', 'fault-points', 'failure-reported'],
     }
